@@ -735,6 +735,60 @@ theorem cleanB_clean (p : Nm) : (endsCleanB p = true → EndsClean p) ∧ (noSep
 
 end Qualify
 
+/-! ## `_initializers_to_constants` (round 10) -/
+
+section Inits
+open Opset.Inits
+
+/-- `_initializers_to_constants`, for every graph: the inputs are untouched; the nodes afterwards are Constant nodes for
+    exactly the initializers that are not the default of an input — in the order of the initializers, BEFORE every
+    original node — followed by the original nodes in their order; if there is such an initializer no initializer is
+    left at all (`_Inline.to_onnx` does not refuse the graph), otherwise the graph is returned as it is. -/
+theorem inits_to_constants_spec (g : IGraph) :
+    (toConstants g).inputs = g.inputs ∧
+      (toConstants g).nodes = (movable g).map .const ++ g.nodes ∧
+      (∀ n, n ∈ movable g ↔ n ∈ g.inits ∧ n ∉ g.inputs) ∧
+      ((∃ n ∈ g.inits, n ∉ g.inputs) → (toConstants g).inits = []) ∧
+      ((∀ n ∈ g.inits, n ∈ g.inputs) → toConstants g = g) := by
+  refine ⟨?_, ?_, mem_movable g, ?_, ?_⟩
+  · unfold toConstants; split <;> rfl
+  · unfold toConstants
+    split
+    · next h => simp [List.isEmpty_iff.mp h]
+    · rfl
+  · rintro ⟨n, h1, h2⟩
+    have : n ∈ movable g := (mem_movable g n).mpr ⟨h1, h2⟩
+    unfold toConstants
+    split
+    · next h => rw [List.isEmpty_iff.mp h] at this; cases this
+    · rfl
+  · intro h
+    have : movable g = [] := by
+      apply List.eq_nil_iff_forall_not_mem.mpr
+      intro n hn
+      exact ((mem_movable g n).mp hn).2 (h n ((mem_movable g n).mp hn).1)
+    unfold toConstants
+    simp [this]
+
+/-- applying it twice changes nothing more -/
+theorem inits_to_constants_idempotent (g : IGraph) : toConstants (toConstants g) = toConstants g := by
+  by_cases h : (movable g).isEmpty = true
+  · have : toConstants g = g := by unfold toConstants; simp [h]
+    rw [this, this]
+  · have e : toConstants g = { inputs := g.inputs, inits := [], nodes := (movable g).map .const ++ g.nodes } := by
+      unfold toConstants; simp [h]
+    rw [e]
+    unfold toConstants
+    simp [movable]
+
+/-- quirk kept by the model: the default value of an input is dropped as soon as ONE other initializer exists, and kept
+    (so that `_Inline.to_onnx` would refuse the graph) when it is alone -/
+theorem inits_default_quirk :
+    toConstants ⟨["a".toList], ["a".toList, "w".toList], [.orig 0]⟩ = ⟨["a".toList], [], [.const "w".toList, .orig 0]⟩ ∧
+    toConstants ⟨["a".toList], ["a".toList], [.orig 0]⟩ = ⟨["a".toList], ["a".toList], [.orig 0]⟩ := by decide
+
+end Inits
+
 /-! ## non-vacuity -/
 
 /-- two v17 reductions next to a v18 one, an inlined opset-11 model, an ml operator: imports and decisions -/
@@ -848,5 +902,9 @@ example : NoClash "N".toList ["x".toList] ["y".toList] [⟨["x".toList], ["t".to
 example : lookup "" (buildModel genFacts (.mk [.mk (.op "" (opNo "ReduceMax") 18) 1 true [] 3])).imports = some 18 ∧
     lookup "" (buildModel genFacts (.mk ([.mk (.op "" (opNo "Identity") 21) 1 true [] 5] ++
       [.mk (.op "" (opNo "ReduceMax") 18) 1 true [] 3] ++ []))).imports = some 21 := by decide +kernel
+
+/-- a converted Pad-10 model: the converter's initializer `pads` becomes a Constant in front of the Pad node -/
+example : Opset.Inits.toConstants ⟨["x".toList], ["pads".toList], [.orig 0]⟩ =
+    ⟨["x".toList], [], [.const "pads".toList, .orig 0]⟩ := by decide
 
 end C09
